@@ -42,8 +42,14 @@ ASSUMPTIONS.update({
     "binop_for_assert": "binop_for_assert (eval.rs:7065) inspects the expression only",
     "eval_break": "eval_break: keeps the frame's base block count (PROVED in unit blocks under `for_values_present`, which is assumed here)",
     "eval_continue": "eval_continue: keeps the frame's base block count (PROVED in unit blocks)",
+    "StructInfoView": "opaque: the StructInfo found for the type name", "FieldInfoView": "opaque: a FieldInfo", "TypeParamSet": "opaque: HashSet of the struct's type parameter names",
+    "TypeArgBindings": "opaque: FxHashMap type parameter -> Type", "FieldsByName": "opaque: FxHashMap field name -> FieldInfo",
+    "vsv_as_struct": "`let TypeDef::Struct(struct_info) = type_info.clone()`", "vsv_type_params": "collects the type parameter names", "vsv_new_bindings": "FxHashMap::default()",
+    "vsv_fields_by_name": "the loop that fills expected_fields_by_name from struct_info.fields (touches no Env)", "vsv_take_field": "FxHashMap::remove", "vsv_is_type_param": "HashSet::contains",
+    "vsv_bind": "FxHashMap::insert of Type::from_value(&field_value)", "vsv_expected_ty": "Type::from_hint(..).unwrap_or_err_ty(): reads env.types only", "vsv_none_left": "FxHashMap::is_empty",
+    "vsv_missing_names": "into_keys().map(format!).collect().join(\", \")", "vsv_type_args": "the loop that reads type_arg_bindings for each type parameter (touches no Env)", "vsv_struct_type": "Type::UserDefined { kind: Struct, name, args }",
+    "as_string": "ErrorMessage::as_string renders the message",
     "type_representation": "inspects the value only", "get_type_def": "Env::get_type_def reads env.types only", "vtn_eq": "TypeName == TypeName",
-    "eval_struct_value": "eval_struct_value (eval.rs) is NOT verified here: assumed to leave the bindings blocks, the pending expressions and the other frames alone and to hand back what it popped when it fails (the restore contract)",
     "eval_call": "eval_call: the same clauses are PROVED for the whole function in unit calls",
     "eval_method_call": "eval_method_call: the same clauses are PROVED for the whole function in unit calls",
     "push_back_mut": "rpds::Vector::push_back_mut", "insert_mut": "rpds::HashTrieMap::insert_mut", "no_value": "Type::no_value()", "from_value": "Type::from_value inspects the value only",
@@ -71,13 +77,12 @@ UNVERIFIED = {
     "C34": ["only the run-time check of a qualified access `ns::item` (eval_namespace_access) is under contract: it yields the namespace's value and does so only for items marked public",
             "unqualified imports: insert_imported_namespace copies into the importing namespace only names the imported one marks public (under contract); how exported_syms is populated when a file is loaded (load_toplevel_items), the check-time rule (infer_namespace_access in the type checker) and cyclic import loading are NOT under contract"],
     "C06": ["the FunLiteral arm of eval_expr (builds a closure value; it neither pushes nor pops bindings blocks in the source) is the only arm not under contract",
-            "the step functions behind the arms that are stubs here (eval_let, eval_assign_update, eval_int_binop, eval_float_binop, eval_struct_value, eval_match_cases_on): assumed not to touch the bindings-block count or the pending expressions",
-            "eval_match_cases and the operand-count / loop-index preconditions of the arms (evaluator invariants established by earlier steps) are assumed; eval_break / eval_continue / eval_block are proved in unit blocks",
+            "every step function behind the arms is under contract (here, or eval_call / eval_method_call in unit calls, eval_block / eval_break / eval_continue in unit blocks); in eval_struct_value the struct definition, the by-name maps and the type arguments are abstracted to opaque values (rules S1..S12: they touch no Env)",
+            "the operand-count / loop-index preconditions of the arms (evaluator invariants established by earlier steps) are assumed",
             "function frames: a frame is created with one bindings block (Bindings::new_with) and dropped whole when the call returns"],
     "C07": ["that the expression state handed back to restore_stack_frame re-runs the same step (eval_expr mutates `expr_state` only in arms that cannot fail; not stated as a contract)",
-            "the step functions that are stubs here (see C06 list) are assumed to satisfy the restore contract; their builder sites are under contract in unit restore, their literal RestoreValues(vec![..]) sites are not",
-            "continuation entries a step pushed to exprs_to_eval before failing stay there (If/Match/While arms of eval_expr): harmless for a repeated :resume, not covered",
-            "eval_let, eval_struct_value, eval_match_cases, the list/tuple/dict literal arms of eval_expr, eval_namespace_access, eval_string_concat: not under contract (covered only by restore.bounded[resume_corpus])"],
+            "check_string and the built-in dispatch (eval_built_in_call / eval_built_in_method_call) are used through contracts whose builder sites are proved in unit restore",
+            "continuation entries a step pushed to exprs_to_eval before failing stay there (If/Match/While arms of eval_expr): harmless for a repeated :resume, not covered"],
     "C13": ["that `==` on Value is Value_::eq (derived PartialEq through Rc) — Value_::eq itself is under contract in unit valeq"],
     "C02": ["the operand-count preconditions (eval_expr evaluates and pushes the operands before the step) are assumed of the caller"],
 }
@@ -258,12 +263,6 @@ pub uninterp spec fn get_var_result(sym: &Symbol, env: Env) -> Option<Value>;
 #[verifier::external_body]
 pub fn get_var(sym: &Symbol, env: &Env) -> (r: Option<Value>) ensures r == get_var_result(sym, *env) { unimplemented!() }
 #[verifier::external_body]
-pub fn eval_struct_value(env: &mut Env, outer_expr_pos: &Position, expr_value_is_used: bool, type_symbol: TypeSymbol, field_exprs: &Vec<(Symbol, Rc<Expression>)>) -> (r: Result<(), (RestoreValues, EvalError)>)
-    requires old(env).stack.0@.len() >= 1,
-    ensures others_same(*old(env), *final(env)), blocks(*final(env)) == blocks(*old(env)), pend(*final(env)) == pend(*old(env)),
-        r is Err ==> restores(*old(env), *final(env), r->Err_0.0.0@),
-{ unimplemented!() }
-#[verifier::external_body]
 pub fn eval_call(env: &mut Env, expr_value_is_used: bool, caller_expr: Rc<Expression>, paren_args: &ParenthesizedArguments, session: &Session) -> (r: Result<Option<StackFrame>, (RestoreValues, EvalError)>)
     requires old(env).stack.0@.len() >= 1,
     ensures others_same(*old(env), *final(env)), blocks(*final(env)) == blocks(*old(env)), pend(*final(env)) == pend(*old(env)),
@@ -390,6 +389,29 @@ impl Env {
     #[verifier::external_body]
     pub fn get_type_def(&self, name: &TypeName) -> (r: Option<&TypeDefAndMethods>) { unimplemented!() }
 }
+// ---- eval_struct_value: the struct definition, the by-name maps and the type arguments are opaque; only the value
+// stack, popped_values and the pushes stay real (rules S1..S12 below) --------------------------------------------
+#[verifier::external_body] pub struct StructInfoView { _o: u8 }
+#[verifier::external_body] pub struct FieldInfoView { _o: u8 }
+#[verifier::external_body] pub struct TypeParamSet { _o: u8 }
+#[verifier::external_body] pub struct TypeArgBindings { _o: u8 }
+#[verifier::external_body] pub struct FieldsByName { _o: u8 }
+#[verifier::external_body] pub fn vsv_as_struct(t: &TypeDefAndMethods) -> (r: Option<StructInfoView>) { unimplemented!() }
+#[verifier::external_body] pub fn vsv_type_params(s: &StructInfoView) -> (r: TypeParamSet) { unimplemented!() }
+#[verifier::external_body] pub fn vsv_new_bindings() -> (r: TypeArgBindings) { unimplemented!() }
+#[verifier::external_body] pub fn vsv_fields_by_name(s: &StructInfoView) -> (r: FieldsByName) { unimplemented!() }
+#[verifier::external_body] pub fn vsv_take_field(m: &mut FieldsByName, name: &SymbolName) -> (r: Option<FieldInfoView>) { unimplemented!() }
+#[verifier::external_body] pub fn vsv_is_type_param(p: &TypeParamSet, f: &FieldInfoView) -> (r: bool) { unimplemented!() }
+#[verifier::external_body] pub fn vsv_bind(b: &mut TypeArgBindings, f: &FieldInfoView, v: &Value) { unimplemented!() }
+#[verifier::external_body] pub fn vsv_expected_ty(f: &FieldInfoView, env: &Env, tb: &TypeVarEnv) -> (r: Type) { unimplemented!() }
+#[verifier::external_body] pub fn vsv_none_left(m: &FieldsByName) -> (r: bool) { unimplemented!() }
+#[verifier::external_body] pub fn vsv_missing_names(m: FieldsByName) -> (r: String) { unimplemented!() }
+#[verifier::external_body] pub fn vsv_type_args(s: &StructInfoView, b: &TypeArgBindings) -> (r: Vec<Type>) { unimplemented!() }
+#[verifier::external_body] pub fn vsv_struct_type(name: TypeName, args: Vec<Type>) -> (r: Type) { unimplemented!() }
+impl ErrorMessage {
+    #[verifier::external_body]
+    pub fn as_string(&self) -> (r: String) { unimplemented!() }
+}
 /// `b.as_ref()` on a Box: the boxed value (Box::as_ref has no Verus specification)
 pub fn vbox_ref<T>(b: &Box<T>) -> (r: &T) ensures *r == **b { &**b }
 #[verifier::external_body]
@@ -448,7 +470,7 @@ def build(tier):
     u.add_type(VAL, "Value_", rules=common.VALUE_TYPE_RULES)
     common.add_error_types(u)
     u.raw(common.FMT, kind="prelude")
-    common.add_env_full(u, real_typename=True, typehint_stub=True, real_ast=("LetDestination", "ExpressionWithComma", "ParenthesizedArguments", "ParenthesizedExpression", "DictKeyValue", "Pattern"), no_syntaxid=True)
+    common.add_env_full(u, real_typename=True, typehint_stub=True, real_ast=("LetDestination", "ExpressionWithComma", "ParenthesizedArguments", "ParenthesizedExpression", "DictKeyValue", "Pattern", "TypeSymbol"), no_syntaxid=True)
     u.raw(common.TOP_SPEC, kind="spec")
     u.raw(common.VALUE_GLUE, kind="prelude")
     u.raw(GLUE2, kind="prelude")
@@ -512,6 +534,33 @@ def build(tier):
         rw.simple("R13c", r"(eval_match_cases_on\(\s*env,\s*expr_value_is_used,\s*scrutinee_pos,\s*cases,\s*&scrutinee_value,?\s*\))\s*\.map_err\(\|e\| (\(RestoreValues\(vec!\[scrutinee_value\.clone\(\)\]\), e\))\)",
                   r"match \1 { Ok(v) => Ok(v), Err(e) => Err(\2) }"),
     ]
+    SV_RULES = [
+        rw.simple("S1", r"let TypeDef::Struct\(struct_info\) = type_info\.clone\(\) else \{", "let Some(struct_info) = vsv_as_struct(type_info) else {"),
+        rw.simple("S2", r"let type_params: HashSet<_> = struct_info\.type_params\.iter\(\)\.map\(\|p\| &p\.name\)\.collect\(\);", "let type_params = vsv_type_params(&struct_info);"),
+        rw.simple("S3", r"let mut type_arg_bindings = FxHashMap::default\(\);", "let mut type_arg_bindings = vsv_new_bindings();"),
+        rw.simple("S4", r"let mut expected_fields_by_name = FxHashMap::default\(\);\s*for field_info in &struct_info\.fields \{\s*expected_fields_by_name\.insert\(&field_info\.sym\.name, field_info\.clone\(\)\);\s*\}",
+                  "let mut expected_fields_by_name = vsv_fields_by_name(&struct_info);"),
+        rw.simple("local", r"let mut fields = vec!\[\];", "let mut fields: Vec<(SymbolName, Value)> = Vec::new();"),
+        rw.simple("local", r"let mut popped_values: Vec<Value> = vec!\[\];", "let mut popped_values: Vec<Value> = Vec::new();"),
+        rw.simple("R4", r"for \(field_sym, field_expr\) in field_exprs \{", "let mut __i1: usize = 0; while __i1 < field_exprs.len() { let (field_sym, field_expr) = &field_exprs[__i1]; __i1 += 1;"),
+        rw.simple("S5", r"expected_fields_by_name\.remove\(&field_sym\.name\)", "vsv_take_field(&mut expected_fields_by_name, &field_sym.name)"),
+        rw.simple("S6", r"type_params\.contains\(&field_info\.hint\.sym\.name\)", "vsv_is_type_param(&type_params, &field_info)"),
+        rw.simple("S7", r"type_arg_bindings\.insert\(\s*field_info\.hint\.sym\.name\.clone\(\),\s*Type::from_value\(&field_value\),\s*\);", "vsv_bind(&mut type_arg_bindings, &field_info, &field_value);"),
+        rw.simple("S8", r"Type::from_hint\(&field_info\.hint, &env\.types, &type_bindings\)\.unwrap_or_err_ty\(\)", "vsv_expected_ty(&field_info, env, &type_bindings)"),
+        rw.simple("R11", r"popped_values\.iter\(\)\.rev\(\)\.cloned\(\)\.collect\(\)", "vrev_cloned(&popped_values)"),
+        rw.simple("S9", r"!expected_fields_by_name\.is_empty\(\)", "!vsv_none_left(&expected_fields_by_name)"),
+        rw.simple("S10", r"let missing: Vec<_> = expected_fields_by_name\s*\.into_keys\(\)\s*\.map\(\|sn\| format!\(\"`\{\}`\", sn\.text\)\)\s*\.collect\(\);", "let missing = vsv_missing_names(expected_fields_by_name);"),
+        rw.simple("S10", r"missing\.join\(\", \"\)", "missing"),
+        rw.simple("S11", r"let mut type_args = vec!\[\];\s*for type_param in &struct_info\.type_params \{\s*let param_value = type_arg_bindings\s*\.get\(&type_param\.name\)\s*\.cloned\(\)\s*\.unwrap_or\(Type::no_value\(\)\);\s*type_args\.push\(param_value\);\s*\}",
+                  "let type_args = vsv_type_args(&struct_info, &type_arg_bindings);"),
+        rw.simple("R11", r"env\.current_frame\(\)\.type_bindings\.clone\(\)", "vc_clone(&env.current_frame().type_bindings)"),
+        rw.simple("S12", r"Type::UserDefined \{\s*kind: TypeDefKind::Struct,\s*name: type_symbol\.name\.clone\(\),\s*args: type_args,\s*\}", "vsv_struct_type(vc_clone(&type_symbol.name), type_args)"),
+    ] + BASE_RULES + [common.CLONE]
+    u.add_fn(EV, "eval_struct_value", rules=SV_RULES, contract=restore_contract("field_exprs@.len()", extra_ensures=[FRAME_NEUTRAL], props={"C07", "C02", "C06"},
+        loops={1: dict(invariant=[("frame", "env.stack.0@.len() >= 1, others_same(*old(env), *env), blocks(*env) == blocks(*old(env)), pend(*env) == pend(*old(env))"),
+                                  ("popped_values_restore_the_stack", "vals(*old(env)) =~= vals(*env) + popped_values@.reverse()"),
+                                  ("operands_left", "vals(*env).len() >= field_exprs@.len() - __i1")],
+                       decreases="field_exprs@.len() - __i1")}))
     MCO_RULES = BASE_RULES + [
         rw.simple("R11", r"\bpayload\.as_ref\(\)", "vbox_ref(payload)"),
         rw.simple("R10", r"\bvalue_type_name == pattern_type_name\b", "vtn_eq(value_type_name, pattern_type_name)"),
@@ -683,7 +732,7 @@ def build(tier):
     arm2("FloatLiteral", "Expression_::FloatLiteral(f) => {")
     arm2("StringLiteral", "Expression_::StringLiteral(s) => {")
     arm2("Variable", "Expression_::Variable(name_sym) => {")
-    arm2("StructLiteral", "Expression_::StructLiteral(type_sym, field_exprs) => {", loops={1: ("__i1", "field_exprs@.len()")})
+    arm2("StructLiteral", "Expression_::StructLiteral(type_sym, field_exprs) => {", loops={1: ("__i1", "field_exprs@.len()")}, needs="outer_expr.expr_->StructLiteral_1@.len()")
     arm2("Call", "Expression_::Call(receiver, paren_args) => match expr_state {", loops={1: ("__i1", "paren_args.arguments@.len()")})
     arm2("MethodCall", "Expression_::MethodCall(receiver_expr, meth_name, paren_args) => {", loops={1: ("__i1", "paren_args.arguments@.len()")})
     arm2("DotAccess", "Expression_::DotAccess(recv, sym) => {", needs=1)
